@@ -260,6 +260,57 @@ func c19Spaces(c *fw.Ctx) {
 			}
 		})
 
+	// the same with the octets standing raw in the text (as a caller or a zone file may write every octet but the
+	// dot and the backslash), and labels that are case pairs or look-alikes only under Unicode case folding: a
+	// comparison through strings.EqualFold / ToLower merges invalid UTF-8 octets, É/é, the Kelvin sign and k, ſ and s
+	c.Space("pairs-raw-octets", "all ordered pairs of names L1.x. / L2.X. whose first label stands raw in the text: every single octet except dot and backslash (254²), and 14 multi-octet labels (UTF-8 case pairs É/é, Σ/σ/ς, Kelvin sign / k / K, long s / s / S, invalid UTF-8 octets); labels are equal exactly when they have the same octets up to ASCII case; non-trivial: the labels are equal under folding", true,
+		func(emit func(func(*fw.R))) {
+			var labels [][]byte
+			for b := 0; b < 256; b++ {
+				if b != '.' && b != '\\' {
+					labels = append(labels, []byte{byte(b)})
+				}
+			}
+			for _, m := range []string{"\xc3\x89", "\xc3\xa9", "\xce\xa3", "\xcf\x83", "\xcf\x82", "\xe2\x84\xaa", "k", "K", "\xc5\xbf", "s", "S", "\xff\xfe", "\xfe\xff", "\xc3"} {
+				labels = append(labels, []byte(m))
+			}
+			name := func(i int) string {
+				x := ".x."
+				if i%2 == 1 {
+					x = ".X."
+				}
+				return string(labels[i]) + x
+			}
+			for i := range labels {
+				i := i
+				emit(func(r *fw.R) {
+					// the unary helpers (Fqdn, CanonicalName: nothing but A-Z is folded, whatever stands around it) on the
+					// label between labels of capitals from both ends of the alphabet
+					for _, fix := range [][2]string{{"", ".x."}, {"Zq.", ".aA.Zz."}, {"aZ", "Az.ZA."}} {
+						nm := fix[0] + string(labels[i]) + fix[1]
+						if p := rn.Parse(nm); p.OK {
+							c19Unary(r, p.Labels, nm)
+						}
+					}
+					for j := range labels {
+						want := 1
+						if rn.LabelEqualFold(labels[i], labels[j]) {
+							want = 2
+							r.Nontrivial()
+						}
+						a, b := name(i), name(j)
+						if got := dns.CompareDomainName(a, b); got != want {
+							r.Fail("CompareDomainName", "CompareDomainName(%q, %q) = %d, reference %d (raw octets in the text)", a, b, got, want)
+						}
+						if got := dns.IsSubDomain(a, b); got != (want == 2) {
+							r.Fail("IsSubDomain", "IsSubDomain(%q, %q) = %v, reference %v (raw octets in the text)", a, b, got, want == 2)
+						}
+					}
+					r.Count("pairs", int64(len(labels)))
+				})
+			}
+		})
+
 	// ---------------------------------------------------------------- other spellings of the same names
 	// The spaces above spell every name as the library's unpacker does. The parser accepts more: any octet
 	// as \DDD, any non-digit octet as \c, octets ≥ 0x80 raw. Helpers must follow the labels, not the text.
